@@ -104,6 +104,7 @@ type reqState struct {
 	abort       chan struct{}
 	phase       int
 	startFailed bool
+	dead        bool // arrived with an already cancelled context: cannot stay queued
 	status      int
 	panicVal    any
 }
@@ -193,6 +194,9 @@ func (g *rig) quiescent() bool {
 	for _, r := range g.reqs {
 		switch r.phase {
 		case phWaiting:
+			if r.dead {
+				return false // Start is about to return (admitted or ctx.Err)
+			}
 			waiting++
 		case phWorking, phDone:
 		default:
@@ -287,7 +291,7 @@ func run(raw json.RawMessage) (common.Case, error) {
 		if dead {
 			cancel() // the client is already gone when the request reaches the gate
 		}
-		r := &reqState{id: len(g.reqs), ep: ep, cancel: cancel, release: make(chan struct{}), abort: make(chan struct{})}
+		r := &reqState{id: len(g.reqs), ep: ep, cancel: cancel, release: make(chan struct{}), abort: make(chan struct{}), dead: dead}
 		ctx = context.WithValue(ctx, ctxKey{}, r)
 		g.mu.Lock()
 		g.reqs = append(g.reqs, r)
